@@ -369,7 +369,7 @@ def accept_cases(ctx):
         for t in asts(size, CORE_LEAVES):
             cases.append(("core", t, show(t), codes("ab"), n))
     seen = {c[2] for c in cases}
-    for size, count in ((6, 1000), (7, 400), (8, 150)) if thorough else ((5, 400), (6, 60)):
+    for size, count in ((6, 1000), (7, 250), (8, 100)) if thorough else ((5, 300), (6, 40)):
         got = 0
         while got < count:
             t = random_ast(rng, size, CORE_LEAVES)
@@ -404,7 +404,7 @@ class Engine:
                  "returned transition table is compared by TLC with {s : Matches(ParseRegex(text).ast, s)}; regex.scan / "
                  "make_scanner on texts built from TLC-confirmed accepted strings (and perturbed ones) against Tokens "
                  "(longest match). distinct = distinct (kind, expression[, text])"
-                 % (("4 (5 for length<=3)", 5, 6, 5, 8, len(FIXED)) if thorough else (4, 4, 5, 4, 6, len(FIXED))))
+                 % (("4 (5 for length<=3)", 5, 6, 5, 8, len(FIXED)) if thorough else (4, 3, 5, 4, 6, len(FIXED))))
         ctx.assume("kind ast: the 12-line builder engines/c31.py:build maps AST nodes to ppci combinators (x+ is x + Kleene(x))")
         ctx.assume("a compile that exceeds a budget of Python function calls (200 000 up to 6 AST nodes, 1 000 000 for 7, "
                    "2 000 000 otherwise) is recorded as non-terminating (exc=Budget); terminating compiles need < 1/9 of it")
@@ -426,7 +426,7 @@ class Engine:
         """Regex_MC exhaustively.  Per-action transition counts are read from a dot dump of the state
         graph (`-coverage` is unusable here: its cost model makes TLC spend minutes on the mutually
         recursive definitions before the first state); the dump is only made for the smaller constants."""
-        for size, ln, psize, dump in ((2, 3, 6, True), (4, 5, 1, False), (5, 3, 1, False)) if thorough else ((2, 3, 5, True), (4, 4, 1, False)):
+        for size, ln, psize, dump in ((2, 3, 6, True), (4, 5, 1, False), (5, 3, 1, False)) if thorough else ((2, 3, 5, True), (4, 3, 1, False)):
             extra, dot = [], os.path.join(ctx.workdir, "regex_mc.dot")
             if dump:
                 extra = ["-dump", "dot,actionlabels", dot]
